@@ -281,7 +281,7 @@ CHECKS = {
         "level_note": "Trusted: hub and stand-in, gojq for the reference filterResult, the reference renderer. Snapshot contents are C02's subject; v0 rendering is exercised by C06 (v0 hook in the start-up sets).",
         "rule": "product enumeration of option vectors, one scripted event history each; non-trivial = any non-default option; distinct = distinct option vector",
         "parts": [
-            part("c09", "pkg/shell-operator", "TestVerifC09", ["zz_verif_c09_test.go", "zz_verif_c09v0_test.go", "zz_verif_c03_test.go", "zz_verif_fixture_test.go"], shards={"quick": 16, "thorough": 16},
+            part("c09", "pkg/shell-operator", "TestVerifC09", ["zz_verif_c09_test.go", "zz_verif_c09v0_test.go", "zz_verif_c09comb_test.go", "zz_verif_c03_test.go", "zz_verif_fixture_test.go"], shards={"quick": 16, "thorough": 16},
                  extra=OP_EXTRA, instrument=OP_INSTR, gomaxprocs=1),
         ],
     },
@@ -299,7 +299,7 @@ CHECKS = {
                  extra={"pkg/kube_events_manager": ["zz_verif_hub.go"]}, instrument={"files": KEM_INSTR}, gomaxprocs=1),
             part("hubconf", "pkg/kube_events_manager", "TestVerifHubConformance", ["zz_verif_hubconf_test.go", "zz_verif_c01_test.go"], shards={"quick": 16, "thorough": 16},
                  extra={"pkg/kube_events_manager": ["zz_verif_hub.go"]}, instrument={"files": KEM_INSTR}),
-            part("c02c", "pkg/shell-operator", "TestVerifC02c", ["zz_verif_c02_test.go", "zz_verif_c09_test.go", "zz_verif_c09v0_test.go", "zz_verif_c03_test.go", "zz_verif_fixture_test.go"], shards={"quick": 16, "thorough": 16},
+            part("c02c", "pkg/shell-operator", "TestVerifC02c", ["zz_verif_c02_test.go", "zz_verif_c09_test.go", "zz_verif_c09v0_test.go", "zz_verif_c09comb_test.go", "zz_verif_c03_test.go", "zz_verif_fixture_test.go"], shards={"quick": 16, "thorough": 16},
                  extra=OP_EXTRA, instrument=OP_INSTR, gomaxprocs=1),
         ],
     },
